@@ -102,6 +102,10 @@ def invert_topology(
         The update, relative to the root of ``path``.
     """
     path, topology = args
+    if isinstance(path, Store):
+        # the place of the process now: another update of the same batch
+        # may have moved it since its own update was computed
+        path = path.path_for()
     return inverse_topology(path[:-1], update, topology)
 
 
@@ -1225,7 +1229,7 @@ def _process_update(
     absolute = Defer(
         process,
         invert_topology,
-        (path, store.topology))
+        (store, store.topology))
 
     return absolute, store
 
